@@ -17,8 +17,8 @@ for e in k["findings"]:
     out.append("| %s | %s | %s | %s |" % (e["id"], e["property"], str(e.get("class", e.get("tag", ""))).replace("|", "/")[:220], coq))
 out.append("\n### 6.2 Seeded property-breaking changes (independent sub-agents; /verif/seeded/<id>/)\n")
 out.append("Each change was produced by a sub-agent that saw only the property text and a scratch worktree, compiles, passes the unedited suite, and comes with a demonstration that fails with it and passes without it; all of that was re-confirmed by `tools/seedconfirm.py` in a fresh scratch worktree of /repo HEAD before the checks were run against it.\n")
-out.append("| seeded change | breaks | what it needs to manifest | caught by (quick tier) | missed by |")
-out.append("|---|---|---|---|---|")
+out.append("| seeded change | breaks | what it needs to manifest | caught by (quick tier, first run) | missed at first | caught after strengthening (what was added) |")
+out.append("|---|---|---|---|---|---|")
 for d in sorted(glob.glob(os.path.join(V, "seeded", "*"))):
     mp = os.path.join(d, "meta.json")
     if not os.path.exists(mp): continue
@@ -26,8 +26,9 @@ for d in sorted(glob.glob(os.path.join(V, "seeded", "*"))):
     ch = m.get("checks", {})
     caught = [c for c, r in ch.items() if r.get("caught")]
     missed = [c for c, r in ch.items() if not r.get("caught")]
-    out.append("| %s%s | %s | %s | %s | %s |" % (os.path.basename(d), "" if m.get("confirmed") else " (not confirmed)", m.get("property", ""),
-               str(m.get("needs", m.get("summary", ""))).replace("|", "/").replace("\n", " ")[:260], ", ".join(caught), ", ".join(missed) or "-"))
+    rk = "; ".join("%s (%s)" % (c, r.get("strengthened_by", "")) for c, r in m.get("recheck", {}).items() if r.get("caught"))
+    out.append("| %s%s | %s | %s | %s | %s | %s |" % (os.path.basename(d), "" if m.get("confirmed") else " (not confirmed)", m.get("property", ""),
+               str(m.get("needs", m.get("summary", ""))).replace("|", "/").replace("\n", " ")[:260], ", ".join(caught), ", ".join(missed) or "-", rk or "-"))
 text = "\n".join(out) + "\n"
 p = os.path.join(V, "DESIGN.md")
 s = open(p).read()
